@@ -6,10 +6,22 @@
    of a lemma of Proofs/Caster.v or Proofs/CasterAbs.v.
 
    The parenthetical "(and every later call panics too)" of the property is FALSE of the code (finding F4):
-   C08_sticky_refuted; what is true instead is C08_sticky_until_compensated_partial / C08_running_sum_spec. *)
+   C08_sticky_refuted; what is true instead is C08_sticky_until_compensated_partial / C08_running_sum_spec.
+
+   Parts 3-6 (added): 3 = the bridge between the two models (Model/CasterBridge.v: the protocol's (cnt, armed) is
+   the abstraction of the real word along every step and every run); 4 = deltas other than +-1; 5 = late
+   registration on reachable states, with its positive half; 6 = BUFFERED channels (Model/CasterBuf.v, capacity
+   cbuf; cbuf = 0 is the protocol of Part 2).  The quantifier of the property says "buffered or unbuffered channels
+   where the contract allows"; the doc comments of chancaster.go say nothing about buffering.  With a buffer the
+   documented usage of Add (register with Add(+1); receive, or call Add(-1) if the select took another case) can
+   make Add(-1) panic, make Send panic, and deliver a Send's value to a receiver registered after it returned:
+   C08_buffered_giveup_panics_refuted, C08_buffered_send_cas_panics_refuted, C08_buffered_misdelivery_refuted
+   (reproduced on the real code).  What is true with a buffer: C08_buffered_regimes_* (cbuf = 0 with give-ups; any
+   cbuf when nobody gives up) and C08_buffered_disciplined_recipients. *)
 From Coq Require Import List ZArith Bool Arith.
-From BB.Model Require Caster CasterAbs.
-From BB.Proofs Require Caster CasterAbs.
+From BB.Model Require Caster CasterAbs CasterBridge CasterBuf.
+From BB.Proofs Require Caster CasterAbs CasterBridge CasterDelta CasterLate CasterBuf CasterBufSafe CasterBufSim
+                       CasterBufRefute.
 Import ListNotations.
 
 (* ================================================================================================== *)
@@ -273,3 +285,410 @@ Proof. exact Proofs.CasterAbs.no_rlock_refuted. Qed.
 Print Assumptions C08_no_rlock_refuted.
 
 End Protocol.
+
+(* ================================================================================================== *)
+(* Part 3: the bridge between the word (Part 1) and the protocol's (cnt, armed) (Part 2)                *)
+(* ================================================================================================== *)
+Section Bridge.
+Import BB.Model.Caster BB.Model.CasterBridge.
+Local Open Scope Z_scope.
+
+(* the protocol state (cnt = n, armed = a) stands for the word word_of n a, and absw reads it back; *)
+Theorem C08_bridge_abstraction : forall n a, (a <= 1)%nat -> Z.of_nat n <= maxi -> absw (word_of n a) = (n, a).
+Proof. exact Proofs.CasterBridge.absw_word_of. Qed.
+Print Assumptions C08_bridge_abstraction.
+
+(* every valid 64-bit word is the word of its abstraction (so the abstraction loses nothing on valid words); *)
+Theorem C08_bridge_concretisation : forall x, 0 <= x < two64 -> Proofs.Caster.valid x ->
+  word_of (fst (absw x)) (snd (absw x)) = x.
+Proof. exact Proofs.CasterBridge.word_of_absw. Qed.
+Print Assumptions C08_bridge_concretisation.
+
+(* Send's fast path `x.state.Load() == 0` is the protocol's test (cnt = 0) && (armed = 0). *)
+Theorem C08_bridge_fast_path : forall n a, Z.of_nat n <= maxi -> (word_of n a = 0 <-> n = 0%nat /\ a = 0%nat).
+Proof. exact Proofs.CasterBridge.word_of_zero. Qed.
+Print Assumptions C08_bridge_fast_path.
+
+(* Add(delta), ANY delta, on a word the protocol can be in: the count moves by delta, armedness is kept, the new
+   count is returned and -delta receives are performed iff armed. *)
+Theorem C08_bridge_add : forall n a d, (a <= 1)%nat -> Z.of_nat n <= maxi -> - maxi <= d <= maxi ->
+  0 <= Z.of_nat n + d <= maxi -> (a = 1%nat -> d <= 0) ->
+  add (word_of n a) d
+  = (word_of (Z.to_nat (Z.of_nat n + d)) a, AddRet (Z.of_nat n + d) (if Nat.eqb a 0 then 0 else - d)).
+Proof. exact Proofs.CasterBridge.wadd_ok. Qed.
+Print Assumptions C08_bridge_add.
+
+(* Read from the word's side, for every valid word x.  Add(-1) panics iff hi x = 0; otherwise it returns hi x - 1,
+   the new word has that count and the same armedness, and exactly one receive is owed iff x is armed - which is
+   what the protocol's deregistration step assumes. *)
+Theorem C08_bridge_add_minus1 : forall x, 0 <= x < two64 -> Proofs.Caster.valid x ->
+  (hi x = 0 -> snd (add x (-1)) = AddPanic) /\
+  (0 < hi x -> add x (-1) = (word_of (fst (absw x) - 1) (snd (absw x)),
+                              AddRet (hi x - 1) (Z.of_nat (snd (absw x))))).
+Proof. exact Proofs.CasterBridge.add_minus1_on_valid. Qed.
+Print Assumptions C08_bridge_add_minus1.
+
+(* Add(+1) below MaxInt32: unarmed, the count grows by one and is returned; armed, the Add panics after having
+   moved the word (the protocol's step PU1, both branches). *)
+Theorem C08_bridge_add_plus1 : forall x, 0 <= x < two64 -> Proofs.Caster.valid x -> hi x < maxi ->
+  (snd (absw x) = 0%nat -> add x 1 = (word_of (S (fst (absw x))) 0, AddRet (hi x + 1) 0)) /\
+  (snd (absw x) = 1%nat -> add x 1 = (word_of (S (fst (absw x))) 1, AddPanic)).
+Proof. exact Proofs.CasterBridge.add_plus1_on_valid. Qed.
+Print Assumptions C08_bridge_add_plus1.
+
+(* Send up to its arming CAS on a valid word: 0 on count 0 / unarmed; an unarmed word with count > 0 becomes exactly
+   the armed word with the same count, `receivers` = that count; an armed word panics (the protocol's step S4). *)
+Theorem C08_bridge_send_begin : forall x, 0 <= x < two64 -> Proofs.Caster.valid x ->
+  (fst (absw x) = 0%nat -> snd (absw x) = 0%nat -> send_begin x = (x, SbZero)) /\
+  ((0 < fst (absw x))%nat -> snd (absw x) = 0%nat ->
+     send_begin x = (word_of (fst (absw x)) 1, SbArmed (hi x))) /\
+  (snd (absw x) = 1%nat -> send_begin x = (x, SbPanic)).
+Proof. exact Proofs.CasterBridge.send_begin_on_valid. Qed.
+Print Assumptions C08_bridge_send_begin.
+
+(* Send's final load / validation / CAS on valid words (xl loaded, xc found by the CAS, r = `receivers`): it succeeds
+   exactly when the protocol's S7 test (armed, count <= r) and S7c test (count unchanged, still armed) say so. *)
+Theorem C08_bridge_send_end : forall r xl xc, 0 <= r <= maxi -> 0 <= xl < two64 -> Proofs.Caster.valid xl ->
+  0 <= xc < two64 -> Proofs.Caster.valid xc ->
+  send_end_cas r xl xc =
+  if ((fst (absw xl) <=? Z.to_nat r)%nat && Nat.eqb (snd (absw xl)) 1 &&
+      Nat.eqb (fst (absw xc)) (fst (absw xl)) && Nat.eqb (snd (absw xc)) 1)%bool
+  then (0, SeRet (hi xl)) else (xc, SePanic).
+Proof. exact Proofs.CasterBridge.send_end_on_valid. Qed.
+Print Assumptions C08_bridge_send_end.
+
+(* EVERY step of the protocol commutes with the word: running the operation of Model/Caster.v that the step stands
+   for (wop_of) on the word of the pre-state panics iff the step raises the protocol's [bad] flag, and otherwise
+   yields exactly the word of the post-state. *)
+Theorem C08_bridge_step : forall c f p e c' f',
+  BB.Model.CasterAbs.cstep BB.Model.CasterAbs.good c f p = Some (e, c', f') ->
+  f BB.Model.CasterAbs.bad = 0%nat -> (f BB.Model.CasterAbs.armed <= 1)%nat ->
+  Z.of_nat (f BB.Model.CasterAbs.cnt) < maxi ->
+  (c = BB.Model.CasterAbs.S7 \/ c = BB.Model.CasterAbs.S7c -> Z.of_nat (f BB.Model.CasterAbs.reg0) <= maxi) ->
+  (c = BB.Model.CasterAbs.S7c -> (f BB.Model.CasterAbs.ret <= f BB.Model.CasterAbs.reg0)%nat) ->
+  let r := wexec (wop_of c f p) (word_of (f BB.Model.CasterAbs.cnt) (f BB.Model.CasterAbs.armed)) in
+  snd r = Proofs.CasterBridge.panicked_of f' /\
+  (f' BB.Model.CasterAbs.bad = 0%nat ->
+   fst r = word_of (f' BB.Model.CasterAbs.cnt) (f' BB.Model.CasterAbs.armed)).
+Proof. exact Proofs.CasterBridge.cstep_word_refines. Qed.
+Print Assumptions C08_bridge_step.
+
+(* Along EVERY schedule (fewer than MaxInt32 receivers): the real word, starting at 0 and driven only by the
+   operations of Model/Caster.v (wrun), is at every point the packing of the protocol's (cnt, armed), and none of
+   those operations panics. *)
+Theorem C08_bridge_run : forall senders receivers sched, Z.of_nat (S receivers) < maxi ->
+  wrun (BB.Model.CasterAbs.init senders receivers) 0 false sched
+  = (BB.Model.CasterAbs.run (BB.Model.CasterAbs.init senders receivers) sched,
+     Proofs.CasterBridge.word_of_st (BB.Model.CasterAbs.run (BB.Model.CasterAbs.init senders receivers) sched),
+     false).
+Proof. exact Proofs.CasterBridge.word_tracks_run. Qed.
+Print Assumptions C08_bridge_run.
+
+Theorem C08_bridge_reachable_word : forall senders receivers sched, Z.of_nat (S receivers) < maxi ->
+  let s := BB.Model.CasterAbs.run (BB.Model.CasterAbs.init senders receivers) sched in
+  Proofs.Caster.valid (Proofs.CasterBridge.word_of_st s) /\
+  absw (Proofs.CasterBridge.word_of_st s)
+  = (BB.Model.CasterAbs.v s BB.Model.CasterAbs.cnt, BB.Model.CasterAbs.v s BB.Model.CasterAbs.armed) /\
+  (Proofs.CasterBridge.word_of_st s = 0 <->
+   BB.Model.CasterAbs.v s BB.Model.CasterAbs.cnt = 0%nat /\ BB.Model.CasterAbs.v s BB.Model.CasterAbs.armed = 0%nat).
+Proof. exact Proofs.CasterBridge.reachable_word_valid. Qed.
+Print Assumptions C08_bridge_reachable_word.
+
+End Bridge.
+
+(* ================================================================================================== *)
+(* Part 4: "every delta in the int range": a delta of +-n is n deltas of +-1, back to back              *)
+(* ================================================================================================== *)
+Section Deltas.
+Import BB.Model.Caster BB.Model.CasterBridge.
+Local Open Scope Z_scope.
+
+(* on every word, Add(a) then Add(b) leaves the word Add(a+b) leaves (in-range deltas); *)
+Theorem C08_delta_word_additive : forall x a b, 0 <= x < two64 ->
+  Proofs.CasterDelta.inr_delta a -> Proofs.CasterDelta.inr_delta b -> Proofs.CasterDelta.inr_delta (a + b) ->
+  fst (add (fst (add x a)) b) = fst (add x (a + b)).
+Proof. exact Proofs.CasterDelta.add_fst_additive. Qed.
+Print Assumptions C08_delta_word_additive.
+
+(* for deltas of the same sign, Add(a+b) returns normally iff Add(a) and then Add(b) do, *)
+Theorem C08_delta_split_iff : forall x a b, 0 <= x < two64 -> Proofs.CasterDelta.same_sign a b ->
+  (Proofs.Caster.good_word x (a + b) <->
+   Proofs.Caster.good_word x a /\ Proofs.Caster.good_word (fst (add x a)) b).
+Proof. exact Proofs.CasterDelta.good_word_split. Qed.
+Print Assumptions C08_delta_split_iff.
+
+(* and then the final word, the final count and the receives performed agree; *)
+Theorem C08_delta_split : forall x a b, 0 <= x < two64 -> Proofs.CasterDelta.same_sign a b ->
+  Proofs.Caster.good_word x (a + b) ->
+  let x1 := fst (add x a) in
+  add x a = (x1, AddRet (hi x + a) (Proofs.CasterDelta.absorb1 x a)) /\
+  add x1 b = (fst (add x (a + b)), AddRet (hi x + a + b) (Proofs.CasterDelta.absorb1 x b)) /\
+  add x (a + b) = (fst (add x (a + b)),
+                   AddRet (hi x + a + b) (Proofs.CasterDelta.absorb1 x a + Proofs.CasterDelta.absorb1 x b)).
+Proof. exact Proofs.CasterDelta.add_split. Qed.
+Print Assumptions C08_delta_split.
+
+(* Add(u*n), u = +-1, against n unit Adds in a row (unit_iter): same final word; it returns normally iff each of them
+   does; the i-th unit Add returns hi + u*i; Add(u*n) returns hi + u*n and performs n times the receives of one; *)
+Theorem C08_delta_units : forall x u n, 0 <= x < two64 -> u = 1 \/ u = -1 -> (1 <= n)%nat -> Z.of_nat n <= maxi ->
+  Proofs.CasterDelta.unit_iter u n x = fst (add x (u * Z.of_nat n)) /\
+  (Proofs.Caster.good_word x (u * Z.of_nat n) <->
+   forall i, (i < n)%nat -> Proofs.Caster.good_word (Proofs.CasterDelta.unit_iter u i x) u) /\
+  (Proofs.Caster.good_word x (u * Z.of_nat n) ->
+     (forall i, (i < n)%nat ->
+        add (Proofs.CasterDelta.unit_iter u i x) u
+        = (Proofs.CasterDelta.unit_iter u (S i) x,
+           AddRet (hi x + u * Z.of_nat (S i)) (Proofs.CasterDelta.absorb1 x u))) /\
+     snd (add x (u * Z.of_nat n))
+     = AddRet (hi x + u * Z.of_nat n) (Z.of_nat n * Proofs.CasterDelta.absorb1 x u)).
+Proof. exact Proofs.CasterDelta.add_n_units. Qed.
+Print Assumptions C08_delta_units.
+
+(* so Add(u*n) panics iff one of the n unit Adds does (valid or invalid word alike). *)
+Theorem C08_delta_panics_iff : forall x u n, 0 <= x < two64 -> u = 1 \/ u = -1 -> (1 <= n)%nat ->
+  Z.of_nat n <= maxi ->
+  (snd (add x (u * Z.of_nat n)) = AddPanic <->
+   exists i, (i < n)%nat /\ snd (add (Proofs.CasterDelta.unit_iter u i x) u) = AddPanic).
+Proof. exact Proofs.CasterDelta.add_n_panics_iff. Qed.
+Print Assumptions C08_delta_panics_iff.
+
+(* In the protocol (citer = the same counter step n times, nothing in between - an interleaving every schedule
+   quantifier of Part 2 contains): ONE call Add(+n) under the read lock does to the word what n steps PU1 do to
+   (cnt, armed), and returns the new count; *)
+Theorem C08_delta_protocol_add_n : forall n c f, (1 <= n)%nat -> (n <= f BB.Model.CasterAbs.u1)%nat ->
+  f BB.Model.CasterAbs.armed = 0%nat -> Z.of_nat (f BB.Model.CasterAbs.cnt + n) <= maxi ->
+  exists f', Proofs.CasterDelta.citer c f BB.Model.CasterAbs.PU1 n = Some (c, f') /\
+    add (word_of (f BB.Model.CasterAbs.cnt) (f BB.Model.CasterAbs.armed)) (Z.of_nat n)
+    = (word_of (f' BB.Model.CasterAbs.cnt) (f' BB.Model.CasterAbs.armed),
+       AddRet (Z.of_nat (f' BB.Model.CasterAbs.cnt)) 0).
+Proof. exact Proofs.CasterDelta.add_n_is_n_steps. Qed.
+Print Assumptions C08_delta_protocol_add_n.
+
+(* ONE call Add(-n) by n idle registered receivers does what n deregistration steps do, and the number of receives
+   it performs is the number of entries those steps add to n5: n while a Send is armed, none otherwise. *)
+Theorem C08_delta_protocol_sub_n : forall n c f, (1 <= n)%nat -> (n <= f BB.Model.CasterAbs.cnt)%nat ->
+  (f BB.Model.CasterAbs.armed <= 1)%nat -> Z.of_nat (f BB.Model.CasterAbs.cnt) <= maxi ->
+  (f BB.Model.CasterAbs.armed = 1%nat -> (n <= f BB.Model.CasterAbs.b0o)%nat) ->
+  (f BB.Model.CasterAbs.armed = 0%nat -> (n <= f BB.Model.CasterAbs.b0n)%nat) ->
+  exists f', Proofs.CasterDelta.citer c f (if Nat.eqb (f BB.Model.CasterAbs.armed) 0
+                                           then BB.Model.CasterAbs.PDeregN else BB.Model.CasterAbs.PDeregO) n
+             = Some (c, f') /\
+    add (word_of (f BB.Model.CasterAbs.cnt) (f BB.Model.CasterAbs.armed)) (- Z.of_nat n)
+    = (word_of (f' BB.Model.CasterAbs.cnt) (f' BB.Model.CasterAbs.armed),
+       AddRet (Z.of_nat (f' BB.Model.CasterAbs.cnt))
+              (Z.of_nat (f' BB.Model.CasterAbs.n5 - f BB.Model.CasterAbs.n5))).
+Proof. exact Proofs.CasterDelta.sub_n_is_n_steps. Qed.
+Print Assumptions C08_delta_protocol_sub_n.
+
+End Deltas.
+
+(* ================================================================================================== *)
+(* Part 5: late registration on reachable states, and its positive half                                 *)
+(* ================================================================================================== *)
+Section Late.
+Import BB.Model.CasterAbs.
+
+(* C08_late_registration_blocked on runs: from the moment a Send has announced itself on the mutex until it unlocks,
+   in every reachable state, no Add(+1) passes RLock; *)
+Theorem C08_late_registration_blocked_run : forall senders receivers sched,
+  let s := run (init senders receivers) sched in
+  sp s <> SNone -> step s (PB PU0) = None /\ step s (PT TU0) = None.
+Proof. exact Proofs.CasterLate.late_blocked_run. Qed.
+Print Assumptions C08_late_registration_blocked_run.
+
+(* C08_late_registration_gets_nothing on runs; *)
+Theorem C08_late_registration_gets_nothing_run : forall senders receivers sched,
+  let s := run (init senders receivers) sched in
+  Proofs.CasterAbs.counted (sp s) = true ->
+  v s b0n = 0 /\ step s (PB PRecvN) = None /\
+  (tow (tg s) = false ->
+     trs (tg s) = 0 /\ tas (tg s) = 0 /\
+     (tpc (tg s) = TA0 \/ tpc (tg s) = TGot \/ tpc (tg s) = TFin) /\ step s (PT TRecv) = None).
+Proof. exact Proofs.CasterLate.late_gets_nothing_run. Qed.
+Print Assumptions C08_late_registration_gets_nothing_run.
+
+(* C08_late_registration_stable on runs, and already from the announcement (S3) on; *)
+Theorem C08_late_registration_stable_run : forall senders receivers sched p s',
+  let s := run (init senders receivers) sched in
+  sp s <> SNone -> tpc (tg s) = TA0 -> step s p = Some s' -> tpc (tg s') = TA0.
+Proof. exact Proofs.CasterLate.late_stable_run. Qed.
+Print Assumptions C08_late_registration_stable_run.
+
+(* over the whole Send: a receiver that is before RLock when a Send is announced or running stays there - having
+   received and absorbed nothing, its RLock still refused - along ANY continuation of the schedule during which
+   that Send does not unlock ("takes effect only for a later Send", negative half). *)
+Theorem C08_late_registration_whole_send : forall senders receivers sched1 sched2,
+  let s1 := run (init senders receivers) sched1 in
+  tpc (tg s1) = TA0 ->
+  (forall j, sp (run s1 (firstn j sched2)) <> SNone) ->
+  let s2 := run s1 sched2 in
+  tpc (tg s2) = TA0 /\ trcv (tg s2) = 0 /\ tabs (tg s2) = 0 /\ step s2 (PT TU0) = None.
+Proof. exact Proofs.CasterLate.late_whole_send. Qed.
+Print Assumptions C08_late_registration_whole_send.
+
+(* Positive half.  Once registered and idle the receiver is in the count, so a Send called meanwhile cannot return 0
+   on the fast path: it queues on the mutex; *)
+Theorem C08_registered_send_takes_slow_path : forall senders receivers sched,
+  let s := run (init senders receivers) sched in
+  tpc (tg s) = TB0 ->
+  1 <= v s cnt /\
+  (forall s', step s (PB PSendStart) = Some s' -> v s' nzero = v s nzero /\ v s' sq = S (v s sq)).
+Proof. exact Proofs.CasterLate.registered_is_counted. Qed.
+Print Assumptions C08_registered_send_takes_slow_path.
+
+(* and it is served by a LATER Send: if, along any continuation, some Send completes (unlocks: nret grows), then by
+   that time the receiver has received exactly one value, or it has deregistered and received none (fairness is
+   the hypothesis "a later Send completes"; that a Send which started does complete is C08_no_deadlock); *)
+Theorem C08_late_registration_served : forall senders receivers sched1 sched2,
+  let s1 := run (init senders receivers) sched1 in
+  let s2 := run s1 sched2 in
+  tpc (tg s1) = TB0 -> v s1 nret < v s2 nret ->
+  (tpc (tg s2) = TGot /\ trcv (tg s2) = 1 /\ tabs (tg s2) = 0) \/
+  (tpc (tg s2) = TFin /\ trcv (tg s2) = 0).
+Proof. exact Proofs.CasterLate.late_served. Qed.
+Print Assumptions C08_late_registration_served.
+
+(* if it does not give up, it has received exactly one value. *)
+Theorem C08_late_registration_served_no_giveup : forall senders receivers sched1 sched2,
+  let s1 := run (init senders receivers) sched1 in
+  let s2 := run s1 sched2 in
+  tpc (tg s1) = TB0 -> ~ In (PT TDereg) sched2 -> v s1 nret < v s2 nret ->
+  tpc (tg s2) = TGot /\ trcv (tg s2) = 1 /\ tabs (tg s2) = 0.
+Proof. exact Proofs.CasterLate.late_served_no_giveup. Qed.
+Print Assumptions C08_late_registration_served_no_giveup.
+
+End Late.
+
+(* ================================================================================================== *)
+(* Part 6: buffered channels (Model/CasterBuf.v: capacity cbuf; dg = idle receivers may give up)       *)
+(* ================================================================================================== *)
+Section Buffered.
+Import BB.Model.CasterAbs BB.Model.CasterBuf.
+
+(* DEFECT (reproduced on the real code).  Capacity 1, one receiver following the documented usage: it registers; the
+   Send puts its copy into the buffer, resets the word to 0 and returns 1; the receiver's select takes another case
+   and it calls Add(-1) as the documentation of Add tells it to ("has not and will not receive a value"): no panic
+   so far, the step is enabled, and it panics. *)
+Theorem C08_buffered_giveup_panics_refuted :
+  exists sched, let s := brun 1 good true (binit 1 1) sched in
+  bv s bad = 0 /\ bstep_st 1 good true s QDeregS <> None /\
+  bv (brun 1 good true s [QDeregS]) bad = 1.
+Proof. exact Proofs.CasterBufRefute.buffered_giveup_panics_refuted. Qed.
+Print Assumptions C08_buffered_giveup_panics_refuted.
+
+(* The same give-up between Send's final load and its CAS to 0 (possible only with copies in a buffer): the Add(-1)
+   returns normally and absorbs the buffered copy, the SEND panics and leaves the word armed (also reproduced on the
+   real code, by a stress test). *)
+Theorem C08_buffered_send_cas_panics_refuted :
+  exists sched, let s := brun 1 good true (binit 1 1) sched in
+  bsp s = S7c /\ bv s bad = 0 /\ bv s n5 = 1 /\
+  let s' := brun 1 good true s [QBase PS] in bsp s' = S8 /\ bv s' bad = 1 /\ bv s' armed = 1.
+Proof. exact Proofs.CasterBufRefute.buffered_send_cas_panics_refuted. Qed.
+Print Assumptions C08_buffered_send_cas_panics_refuted.
+
+(* Nobody gives up (dg = false), capacity 1, two receivers, two Sends: a receiver registered after Send#1 returned
+   receives Send#1's value (stolen), and Send#2's value goes to the receiver Send#1 had counted (misd): "to each
+   receiver registered before the Send began ... and to nobody else" fails, although all counts are right. *)
+Theorem C08_buffered_misdelivery_refuted :
+  exists sched, let s := brun 1 good false (binit 2 2) sched in
+  bv s bad = 0 /\ bv s stolen = 1 /\ misd (bx s) = 1 /\ bsp s = SNone /\ bv s nret = 2 /\ bv s retsum = 2 /\
+  bv s got = 2.
+Proof. exact Proofs.CasterBufRefute.buffered_misdelivery_refuted. Qed.
+Print Assumptions C08_buffered_misdelivery_refuted.
+
+(* What holds with a buffer.  The two safe regimes: cbuf = 0 (receivers may give up - Part 2), or any capacity when
+   no receiver ever gives up.  In both, on every schedule: no panic of the code fires; *)
+Theorem C08_buffered_regimes_no_panic : forall cbuf dg senders receivers sched,
+  cbuf = 0 \/ dg = false ->
+  bv (brun cbuf good dg (binit senders receivers) sched) bad = 0.
+Proof. exact Proofs.CasterBufSafe.safe_no_panic. Qed.
+Print Assumptions C08_buffered_regimes_no_panic.
+
+(* a Send about to return: return value + copies absorbed by racing Add(-1)s = the count it armed with; the word is
+   0; no Add(-1) still owes a receive; every value left in the buffer has a registered receiver waiting for it; *)
+Theorem C08_buffered_regimes_send_return : forall cbuf dg senders receivers sched,
+  cbuf = 0 \/ dg = false ->
+  let s := brun cbuf good dg (binit senders receivers) sched in
+  bsp s = S8 ->
+  bv s ret + bv s absd = bv s reg0 /\ bv s cnt = 0 /\ bv s armed = 0 /\ bv s n5 = 0 /\
+  qc (bx s) = 0 /\ qo (bx s) = b0s (bx s) /\ bv s got + qo (bx s) = bv s retsum + bv s ret.
+Proof. exact Proofs.CasterBufSafe.safe_send_return. Qed.
+Print Assumptions C08_buffered_regimes_send_return.
+
+(* between Sends: values received + values still buffered = the sum of the Sends' return values, and each buffered
+   value (or value taken early) is matched by a waiting receiver whose registration a finished Send has used up; *)
+Theorem C08_buffered_regimes_conservation : forall cbuf dg senders receivers sched,
+  cbuf = 0 \/ dg = false ->
+  let s := brun cbuf good dg (binit senders receivers) sched in
+  bsp s = SNone ->
+  bv s got + qo (bx s) = bv s retsum /\ qc (bx s) = 0 /\ qo (bx s) + pre (bx s) = b0s (bx s) /\
+  bv s cnt = bv s u2 + bv s b0n + pre (bx s) /\ bv s armed = 0.
+Proof. exact Proofs.CasterBufSafe.safe_conservation. Qed.
+Print Assumptions C08_buffered_regimes_conservation.
+
+(* nobody gives up, any capacity: every Send returns exactly the count it armed with; *)
+Theorem C08_buffered_nogiveup_send_return_exact : forall cbuf senders receivers sched,
+  let s := brun cbuf good false (binit senders receivers) sched in
+  bv s bad = 0 /\ (bsp s = S8 -> bv s ret = bv s reg0 /\ bv s cnt = 0 /\ bv s armed = 0).
+Proof. exact Proofs.CasterBufSafe.nogiveup_send_return_exact. Qed.
+Print Assumptions C08_buffered_nogiveup_send_return_exact.
+
+(* capacity 0 with give-ups: nothing is ever buffered, nobody is stale, no value reaches a wrong taker, and the
+   statements of Part 2 hold of this model too; *)
+Theorem C08_unbuffered_clean : forall dg senders receivers sched,
+  let s := brun 0 good dg (binit senders receivers) sched in
+  bv s bad = 0 /\ bv s stolen = 0 /\ misd (bx s) = 0 /\
+  qo (bx s) = 0 /\ qc (bx s) = 0 /\ b0s (bx s) = 0 /\ pre (bx s) = 0 /\
+  (bsp s = S8 -> bv s ret = bv s dlv /\ bv s ret + bv s absd = bv s reg0 /\ bv s cnt = 0 /\ bv s armed = 0) /\
+  (bsp s = SNone -> bv s got = bv s retsum).
+Proof. exact Proofs.CasterBufSafe.unbuffered_clean. Qed.
+Print Assumptions C08_unbuffered_clean.
+
+(* in both regimes no call blocks for ever: when nothing can move except idle receivers that might still give up, no
+   Send or Add is in progress or pending, the buffer is empty and the count is the number of idle receivers; *)
+Theorem C08_buffered_regimes_no_deadlock : forall cbuf dg senders receivers sched,
+  cbuf = 0 \/ dg = false ->
+  let s := brun cbuf good dg (binit senders receivers) sched in
+  bquiescentb cbuf good dg s = true ->
+  bsp s = SNone /\ bv s nsend = 0 /\ bv s sq = 0 /\ bv s a0 = 0 /\ bv s u1 = 0 /\ bv s u2 = 0 /\
+  bv s n5 = 0 /\ bv s b0o = 0 /\ qo (bx s) = 0 /\ qc (bx s) = 0 /\
+  bv s cnt = bv s b0n + b0s (bx s) /\ bv s armed = 0.
+Proof. exact Proofs.CasterBufSafe.brun_quiescent_all_returned. Qed.
+Print Assumptions C08_buffered_regimes_no_deadlock.
+
+(* and the RECIPIENTS are right as well (nobody gives up, any capacity) on every schedule in which a value is taken
+   only while no receiver counted by a finished Send still waits for its own - or by such a receiver, from the
+   buffer (Proofs.CasterBufSafe.disciplined; the schedule of C08_buffered_misdelivery_refuted is not). *)
+Theorem C08_buffered_disciplined_recipients : forall cbuf senders receivers sched,
+  Proofs.CasterBufSafe.disciplined cbuf false (binit senders receivers) sched ->
+  let s := brun cbuf good false (binit senders receivers) sched in bv s stolen = 0 /\ misd (bx s) = 0.
+Proof. exact Proofs.CasterBufSafe.disciplined_clean. Qed.
+Print Assumptions C08_buffered_disciplined_recipients.
+
+(* The buffered model at capacity 0 IS the protocol of Part 2, step for step (in every state satisfying its
+   invariant, hence every reachable one): the buffer steps are dead, *)
+Theorem C08_buffer0_extra_steps_disabled : forall dg c f x p, Proofs.CasterBuf.CInvB 0 dg c f x ->
+  (forall b, p <> QBase b) -> bstep 0 good dg c f x p = None.
+Proof. exact Proofs.CasterBufSim.buf0_extra_disabled. Qed.
+Print Assumptions C08_buffer0_extra_steps_disabled.
+
+(* each of its steps is a step of CasterAbs.cstep with the same successor, *)
+Theorem C08_buffer0_forward : forall dg c f x b c' f' x', Proofs.CasterBuf.CInvB 0 dg c f x ->
+  bstep 0 good dg c f x (QBase b) = Some (c', f', x') ->
+  exists e f'', cstep good c f b = Some (e, c', f'') /\ (forall y, f' y = f'' y) /\ x' = x.
+Proof. exact Proofs.CasterBufSim.buf0_forward. Qed.
+Print Assumptions C08_buffer0_forward.
+
+(* and conversely. *)
+Theorem C08_buffer0_backward : forall c f x b e c' f'', Proofs.CasterBuf.CInvB 0 true c f x ->
+  cstep good c f b = Some (e, c', f'') ->
+  exists f', bstep 0 good true c f x (QBase b) = Some (c', f', x) /\ (forall y, f' y = f'' y).
+Proof. exact Proofs.CasterBufSim.buf0_backward. Qed.
+Print Assumptions C08_buffer0_backward.
+
+Theorem C08_buffer0_invariant_reachable : forall dg senders receivers sched,
+  let s := brun 0 good dg (binit senders receivers) sched in Proofs.CasterBuf.CInvB 0 dg (bsp s) (bv s) (bx s).
+Proof. exact Proofs.CasterBufSim.buf0_invariant_reachable. Qed.
+Print Assumptions C08_buffer0_invariant_reachable.
+
+End Buffered.
